@@ -987,7 +987,7 @@ def _run(sc, S, obs):
             cur.update(op=op, opi=opi)
             gk = ('g', op['func_group'])
             if gk not in stable:
-                stable[gk] = _mk_funcs(None, None)
+                stable[gk] = _mk_funcs(None, None, group=op['func_group'])
             return stable[gk]
         if sc.get('same_func'):
             cur.update(op=op, opi=opi)
@@ -998,7 +998,7 @@ def _run(sc, S, obs):
 
     cur = {}
 
-    def _mk_funcs(op_fixed, opi_fixed):
+    def _mk_funcs(op_fixed, opi_fixed, group=None):
         def ctx():
             op = op_fixed if op_fixed is not None else cur['op']
             opi = opi_fixed if opi_fixed is not None else cur['opi']
@@ -1035,7 +1035,7 @@ def _run(sc, S, obs):
             else:
                 idx, conv = idx_of_call(ekind, rest, kwargs)
             tok = token()
-            rec = [opi, 'task', S.cur.role, tok, wid, idx, round(t0, 6), None, conv, state_check(state, tok), shared_ok, now_op[0], (state.get('__n') if isinstance(state, dict) else None)]
+            rec = [opi, 'task', S.cur.role, tok, wid, idx, round(t0, 6), None, conv, state_check(state, tok), shared_ok, now_op[0], (state.get('__n') if isinstance(state, dict) else None), group]
             calls.append(rec)
             S.rec('user', 'task', idx)
             S.cur.in_user = 1
@@ -1072,7 +1072,7 @@ def _run(sc, S, obs):
             op, opi, cfg, ekind, fail, numpy_in = ctx()
             wid, shared_ok, state, rest = extras_check(args, cfg)
             tok = token()
-            rec = [opi, 'init', S.cur.role, tok, wid, None, round(S.now - S.t0, 6), None, len(rest) == 0, state_check(state, tok), shared_ok, now_op[0], (state.get('__n') if isinstance(state, dict) else None)]
+            rec = [opi, 'init', S.cur.role, tok, wid, None, round(S.now - S.t0, 6), None, len(rest) == 0, state_check(state, tok), shared_ok, now_op[0], (state.get('__n') if isinstance(state, dict) else None), group]
             calls.append(rec)
             S.rec('user', 'init', None)
             d = dur_of(op.get('init_dur'), int(S.cur.role.split('-')[-1]) if '-' in S.cur.role else 0)
@@ -1092,7 +1092,7 @@ def _run(sc, S, obs):
             op, opi, cfg, ekind, fail, numpy_in = ctx()
             wid, shared_ok, state, rest = extras_check(args, cfg)
             tok = token()
-            rec = [opi, 'exit', S.cur.role, tok, wid, None, round(S.now - S.t0, 6), None, len(rest) == 0, state_check(state, tok), shared_ok, now_op[0], (state.get('__n') if isinstance(state, dict) else None)]
+            rec = [opi, 'exit', S.cur.role, tok, wid, None, round(S.now - S.t0, 6), None, len(rest) == 0, state_check(state, tok), shared_ok, now_op[0], (state.get('__n') if isinstance(state, dict) else None), group]
             calls.append(rec)
             S.rec('user', 'exit', None)
             d = dur_of(op.get('exit_dur'), int(S.cur.role.split('-')[-1]) if '-' in S.cur.role else 0)
